@@ -42,6 +42,7 @@ struct Knobs {
         double p_phases = 0.3;
         double p_long_run = 0.03;
         double p_cut_crlf = 0.08;
+        double p_other = 0.15; // a second parser instance runs in between
         int max_svc_gap = 60;
         bool observe = true;
         bool scribble = false;
@@ -191,6 +192,7 @@ struct Gen {
                 p.scribble = K.scribble;
                 p.probe_ok = r.chance(K.p_probe_ok);
                 p.mutex = r.chance(K.p_mutex);
+                p.other = r.chance(K.p_other);
                 int ncmd = (int)r.range(K.min_cmds, K.max_cmds);
                 if (r.chance(K.p_many_cmds))
                         ncmd = (int)r.range(30, 300);
@@ -1466,8 +1468,9 @@ Plan gen_plan(const std::string &prop, uint64_t seed, uint64_t idx, int qcap)
                         g.gen_ops_c12();
                 else if (prop == "C20")
                         g.gen_ops_c20();
-                else if (prop == "C17")
-                        g.gen_ops_c17();
+                else if (prop == "C17" || (prop == "C13" && idx % 20 == 7))
+                        g.gen_ops_c17(); // C13: one plan in twenty has its triggers issued by other threads
+                
                 else
                         g.gen_ops();
                 if (prop == "C10" && idx < gen_enum_count(prop))
